@@ -163,6 +163,9 @@ func printExpr(b *strings.Builder, g *Grammar, e *Expr, min int, o PrintOpts) {
 // LitText is the canonical spelling of a literal: Go double-quoted, i suffix.
 func LitText(e *Expr) string {
 	s := strconv.Quote(string(e.Val))
+	if e.Sp != 0 {
+		s = litSpelled(e)
+	}
 	if e.IC {
 		s += "i"
 	}
@@ -170,7 +173,92 @@ func LitText(e *Expr) string {
 }
 
 // LitWant is how the literal is shown in "expected" lists: the Go-quoted value plus i.
-func LitWant(e *Expr) string { return LitText(e) }
+func LitWant(e *Expr) string {
+	s := strconv.Quote(string(e.Val))
+	if e.IC {
+		s += "i"
+	}
+	return s
+}
+
+// spForm is the escape form the spelling seed sp gives to rune r: 0 canonical, 1 octal,
+// 2 \x, 3 \u, 4 \U.
+func spForm(sp int, r rune) int {
+	if sp == 0 {
+		return 0
+	}
+	h := uint32(sp)*2654435761 + uint32(r)*40503
+	h ^= h >> 13
+	return int(h % 5)
+}
+
+// litSpelled spells a literal value (valid UTF-8) as its spelling seed says: single-quoted
+// (one rune only) or raw when the seed asks for it and the value allows it, otherwise
+// double-quoted with per-rune escape forms (\ooo and \xhh spell the bytes of the encoding).
+func litSpelled(e *Expr) string {
+	val := string(e.Val)
+	rs := []rune(val)
+	quote := byte('"')
+	switch e.Sp % 3 {
+	case 1:
+		if len(rs) == 1 && rs[0] != '\n' {
+			quote = '\''
+		}
+	case 2:
+		if !strings.ContainsAny(val, "`\r") {
+			return "`" + val + "`"
+		}
+	}
+	var b strings.Builder
+	b.WriteByte(quote)
+	for _, r := range rs {
+		enc := string(r)
+		form := spForm(e.Sp, r)
+		if quote == '\'' && len(enc) > 1 && (form == 1 || form == 2) {
+			form = 3 // a byte escape above 0x7f is not one rune
+		}
+		switch {
+		case form == 1:
+			for i := 0; i < len(enc); i++ {
+				fmt.Fprintf(&b, `\%03o`, enc[i])
+			}
+		case form == 2:
+			for i := 0; i < len(enc); i++ {
+				fmt.Fprintf(&b, `\x%02x`, enc[i])
+			}
+		case form == 3 && r < 0x10000:
+			fmt.Fprintf(&b, `\u%04x`, r)
+		case form == 3 || form == 4:
+			fmt.Fprintf(&b, `\U%08x`, r)
+		default:
+			q := strconv.Quote(enc)
+			q = q[1 : len(q)-1]
+			switch {
+			case r == rune(quote):
+				q = `\` + string(r)
+			case r == '"':
+				q = `"`
+			}
+			b.WriteString(q)
+		}
+	}
+	b.WriteByte(quote)
+	return b.String()
+}
+
+func classRuneSp(sp int, r rune) string {
+	switch form := spForm(sp, r); {
+	case form == 1 && r < 0x100:
+		return fmt.Sprintf(`\%03o`, r)
+	case form == 2 && r < 0x100:
+		return fmt.Sprintf(`\x%02x`, r)
+	case form == 3 && r < 0x10000:
+		return fmt.Sprintf(`\u%04x`, r)
+	case form == 4 || form == 3:
+		return fmt.Sprintf(`\U%08x`, r)
+	}
+	return classRune(r)
+}
 
 func classRune(r rune) string {
 	switch {
@@ -214,11 +302,11 @@ func ClassText(e *Expr) string {
 		if r == '-' {
 			continue
 		}
-		b.WriteString(classRune(r))
+		b.WriteString(classRuneSp(e.Sp, r))
 	}
 	for i := 0; i+1 < len(e.Ranges); i += 2 {
 		lo, hi := e.Ranges[i], e.Ranges[i+1]
-		b.WriteString(classRangeEnd(lo) + "-" + classRangeEnd(hi))
+		b.WriteString(classRangeEnd(e.Sp, lo) + "-" + classRangeEnd(e.Sp, hi))
 	}
 	for _, c := range e.UClasses {
 		if len(c) == 1 {
@@ -234,12 +322,12 @@ func ClassText(e *Expr) string {
 	return b.String()
 }
 
-func classRangeEnd(r rune) string {
-	if r == '-' {
+func classRangeEnd(sp int, r rune) string {
+	if r == '-' && spForm(sp, r) == 0 {
 		// a hyphen as a range end point cannot be written unambiguously
 		return `\x2d`
 	}
-	return classRune(r)
+	return classRuneSp(sp, r)
 }
 
 func quoteList(ss []string) string {
